@@ -252,6 +252,55 @@ pub async fn run(out: &mut Out) {
             other.stop();
         }
     }
+    // ---- a round-robin load balancer over two http upstreams: members fail and come back one after the other, then together
+    {
+        let mut wl = world(&[], 10);
+        let mut ups: Vec<Option<Up>> = vec![start_up("http", 0).await, start_up("http", 0).await];
+        let ports: Vec<u16> = ups.iter().map(|u| u.as_ref().unwrap().port).collect();
+        {
+            let st = Arc::get_mut(&mut wl.state).unwrap();
+            for (i, p) in ports.iter().enumerate() {
+                st.connectors.insert(format!("h{}", i), real_connector(&format!("name: h{}\ntype: http\nserver: 127.0.0.1\nport: {}", i, p)).await);
+            }
+        }
+        let lb = real_connector("name: lb\ntype: loadbalance\nconnectors: [h0, h1]").await;
+        Arc::get_mut(&mut wl.state).unwrap().connectors.insert("lb".into(), lb.clone());
+        let _ = lb.clone().verify(wl.state.clone()).await;
+        let target = TargetAddress::DomainPort("origin.example".into(), 80);
+        // (members up after this step, requests)
+        let script: Vec<([bool; 2], usize)> = vec![([true, true], 4), ([false, true], 3), ([true, true], 4), ([true, false], 3), ([true, true], 6), ([false, false], 2), ([true, true], 4)];
+        for (want_up, k) in script {
+            for i in 0..2 {
+                if want_up[i] && ups[i].is_none() {
+                    ups[i] = start_up("http", ports[i]).await;
+                } else if !want_up[i] {
+                    if let Some(u) = ups[i].take() {
+                        u.stop();
+                    }
+                }
+            }
+            tokio::time::sleep(std::time::Duration::from_millis(60)).await;
+            let mut outcomes = vec![];
+            for _ in 0..k {
+                let (r, _) = attempt(&wl, &lb, target.clone(), 5000).await;
+                outcomes.push(r);
+            }
+            out.case(&format!("L {}{} {}", want_up[0] as u8, want_up[1] as u8, k), &outcomes.join(","));
+            out.stat("lb_outage_steps");
+            if outcomes.contains(&"hang") {
+                out.oracle_fail("attempt-hangs", &format!("load balancer over [h0,h1], members up = {:?}: {:?}", want_up, outcomes));
+            }
+            if want_up == [true, true] && outcomes.iter().skip(2).any(|r| *r != "ok") {
+                out.oracle_fail("no-recovery", &format!("load balancer over [h0,h1]: both upstreams are up again, requests still fail: {:?}", outcomes));
+            }
+            if want_up == [false, false] && outcomes.contains(&"ok") {
+                out.oracle_fail("success-without-upstream", &format!("load balancer, every member down: {:?}", outcomes));
+            }
+        }
+        for u in ups.into_iter().flatten() {
+            u.stop();
+        }
+    }
     // ---- the QUIC connector against a real second proxy process
     if let Some(bin) = out.param("plainbin").map(|s| s.to_string()) {
         let origin = start_up("origin", 0).await.unwrap();
